@@ -10,7 +10,6 @@ import (
 	"encoding/json"
 	"fmt"
 	"math/rand"
-	"os"
 	"sort"
 	"strings"
 
@@ -27,7 +26,7 @@ func init() { hx.Register("c11", func() hx.Property { return &c11{} }) }
 type c11 struct{}
 
 type c11Case struct {
-	Kind  string         `json:"kind"` // corpus | tt | tt2 | gen | malformed
+	Kind  string         `json:"kind"` // corpus | tt | tt2 | tt3 | gen | malformed
 	Chart *vChart        `json:"chart"`
 	Vals  map[string]any `json:"vals"`
 }
@@ -353,14 +352,51 @@ func c11Metamorphic(c c11Case, base c11Run) []string {
 					}
 					if m, ok := view.(map[string]any); ok {
 						if _, leak := lookupPath(m, []string{"global", "zzc"}); leak {
-							if os.Getenv("C11DBG") != "" {
-								b, _ := json.Marshal(v)
-								b2, _ := json.Marshal(r.Rendered)
-								fmt.Fprintf(os.Stderr, "DBG k=%s p=%s\nvals=%s\nrendered=%s\n", k, p, b, b2)
-							}
 							out = append(out, "child-global-leaks-to:"+p)
 						}
 					}
+				}
+			}
+		}
+	}
+	// (5) the same with nested global tables: the child extends a table that the parent's global
+	// already holds two levels down (the shape of the F8 leak)
+	for _, k := range kids {
+		if strings.Contains(k, ".") {
+			continue
+		}
+		v := withKey([]string{"global", "zza", "zzb", "x"}, float64(1))
+		if v == nil {
+			continue
+		}
+		sect, ok := v[k].(map[string]any)
+		if !ok {
+			if _, present := v[k]; present {
+				continue
+			}
+			sect = map[string]any{}
+			v[k] = sect
+		}
+		g, ok := sect["global"].(map[string]any)
+		if !ok {
+			if _, present := sect["global"]; present {
+				continue
+			}
+			g = map[string]any{}
+			sect["global"] = g
+		}
+		g["zza"] = map[string]any{"zzb": map[string]any{"y": float64(2)}}
+		r := c11Pipeline(c.Chart, v, nil)
+		if r.Stage != "ok" {
+			continue
+		}
+		for p, view := range r.Rendered {
+			if under(p, k) {
+				continue
+			}
+			if m, ok := view.(map[string]any); ok {
+				if _, leak := lookupPath(m, []string{"global", "zza", "zzb", "y"}); leak {
+					out = append(out, "child-nested-global-leaks-to:"+p)
 				}
 			}
 		}
@@ -435,6 +471,26 @@ func (*c11) Oracle(ci, oi any) []hx.Violation {
 			vs = append(vs, hx.Violation{Sig: "C11:enabled-iff-level2",
 				What: fmt.Sprintf("nested dependency %s: enabled by the truth table = %v but rendered = %v", gc.Name, want, got)})
 		}
+	case "tt3":
+		sub := c.Chart.Charts[0]
+		gc := sub.Charts[0]
+		lf := gc.Charts[0]
+		d := gc.Deps[0]
+		var conds [][]string
+		for _, p := range strings.Split(d.Condition, ",") {
+			conds = append(conds, append([]string{sub.Name, gc.Name}, strings.Split(p, ".")...))
+		}
+		srcs := func(p []string) []map[string]any {
+			return []map[string]any{c.Vals, c.Chart.Values, {sub.Name: map[string]any(sub.Values)},
+				{sub.Name: map[string]any{gc.Name: map[string]any(gc.Values)}},
+				{sub.Name: map[string]any{gc.Name: map[string]any{lf.Name: map[string]any(lf.Values)}}}}
+		}
+		want := c11Expect(conds, d.Tags, srcs, []map[string]any{c.Vals, c.Chart.Values, sub.Values, gc.Values})
+		got := rendered("top/charts/" + sub.Name + "/charts/" + gc.Name + "/charts/" + lf.Name + "/" + probeTemplate)
+		if want != got {
+			vs = append(vs, hx.Violation{Sig: "C11:enabled-iff-level3",
+				What: fmt.Sprintf("third-level dependency %s: enabled by the truth table = %v but rendered = %v", lf.Name, want, got)})
+		}
 	}
 	for _, m := range obs.Meta {
 		sig := "C11:" + strings.SplitN(m, ":", 2)[0]
@@ -443,8 +499,54 @@ func (*c11) Oracle(ci, oi any) []hx.Violation {
 		}
 		vs = append(vs, hx.Violation{Sig: sig, What: "isolation / global flow broken on the implementation: " + m})
 	}
-	// a rendered chart that is not the root must come from a chart directory of the input tree
+	// an aliased dependency appears under the alias only: every chart directory on a rendered
+	// path must be a key under which the input tree offers a subchart at that level
+	for p := range obs.Rendered {
+		segs := strings.Split(strings.TrimSuffix(p, "/"+probeTemplate), "/charts/")
+		cur := []*vChart{c.Chart}
+		ok := len(segs) > 0 && segs[0] == c.Chart.Name
+		for _, sgm := range segs[1:] {
+			if !ok {
+				break
+			}
+			var next []*vChart
+			for _, x := range cur {
+				for _, s := range x.Charts {
+					for _, k := range offeredKeys(x, s) {
+						if k == sgm {
+							next = append(next, s)
+						}
+					}
+				}
+			}
+			cur, ok = next, len(next) > 0
+		}
+		if !ok {
+			vs = append(vs, hx.Violation{Sig: "C11:rendered-under-unoffered-name",
+				What: "template rendered at " + p + ": a chart on this path appears under a name that is neither its alias nor (unaliased) its own name"})
+			break
+		}
+	}
 	return vs
+}
+
+// offeredKeys: the names under which subchart s of x may appear after dependency processing:
+// the alias (else the name) of every requirement that selects it; its own name if none does.
+func offeredKeys(x, s *vChart) []string {
+	var out []string
+	for _, d := range x.Deps {
+		if d.Name == s.Name && chartutil.IsCompatibleRange(d.Version, s.Version) {
+			if d.Alias != "" {
+				out = append(out, d.Alias)
+			} else {
+				out = append(out, d.Name)
+			}
+		}
+	}
+	if len(out) == 0 {
+		out = []string{s.Name}
+	}
+	return out
 }
 
 // ---------- Gallina
@@ -548,6 +650,13 @@ func (*c11) Corpus() []any {
 			Charts: []*vChart{leaf("suba", tbl("enabled", true))},
 			Deps:   []vDep{{Name: "suba", Version: "1.0.0", Condition: "suba.enabled", Tags: []string{"t1"}}}},
 		Vals: tbl()})
+	// known finding: a subchart whose name contains a dot gets an empty scope (recAllTpls looks
+	// its values up with a dotted path), not even its own defaults or globals
+	out = append(out, c11Case{Kind: "corpus",
+		Chart: &vChart{Name: "top", Version: "1.0.0", Values: tbl("my.sub", tbl("a", 5.0), "global", tbl("g", 1.0)),
+			Charts: []*vChart{leaf("my.sub", tbl("x", 1.0))},
+			Deps:   []vDep{{Name: "my.sub", Version: "1.0.0"}}},
+		Vals: tbl()})
 	return out
 }
 
@@ -592,9 +701,9 @@ func put(m map[string]any, state string, path ...string) {
 func (*c11) Exhaustive(tier string) []any {
 	var out []any
 	three := []string{"true", "false", "absent"}
-	c2s, t2s, c1ss := three, three, []string{"absent", "false"}
+	c2s, t2s, c1ss, tds := three, []string{"true", "absent"}, []string{"absent", "false"}, []string{"false", "absent"}
 	if tier == "thorough" {
-		c2s, t2s, c1ss = c11States, c11States, c11States
+		c2s, t2s, c1ss, tds = c11States, c11States, c11States, c11States
 	}
 	// level 1: condition "suba.enabled,flag2", tags [t1,t2]
 	for _, c1d := range c11States {
@@ -629,7 +738,7 @@ func (*c11) Exhaustive(tier string) []any {
 		for _, cs := range c11States {
 			for _, tu := range c11States {
 				for _, ts := range c11States {
-					for _, td := range three {
+					for _, td := range tds {
 						def, usr, sdef := map[string]any{}, map[string]any{}, map[string]any{}
 						put(usr, cu, "suba", "gca", "enabled")
 						put(sdef, cs, "gca", "enabled")
@@ -643,6 +752,28 @@ func (*c11) Exhaustive(tier string) []any {
 									Deps:   []vDep{{Name: "gca", Version: "1.0.0", Condition: "gca.enabled", Tags: []string{"t1"}}}}},
 								Deps: []vDep{{Name: "suba", Version: "1.0.0"}}}})
 					}
+				}
+			}
+		}
+	}
+	// level 3: requirement of gca on leaf (suba has NO requirements list: gca is only present under
+	// charts/), condition "leaf.enabled" looked up below "suba.gca.", tag t1
+	for _, cu := range c11States {
+		for _, cg := range c11States {
+			for _, tu := range c11States {
+				for _, tg := range three {
+					def, usr, gdef := map[string]any{}, map[string]any{}, map[string]any{}
+					put(usr, cu, "suba", "gca", "leaf", "enabled")
+					put(gdef, cg, "leaf", "enabled")
+					put(usr, tu, "tags", "t1")
+					put(gdef, tg, "tags", "t1")
+					out = append(out, c11Case{Kind: "tt3", Vals: usr,
+						Chart: &vChart{Name: "top", Version: "1.0.0", Values: def,
+							Charts: []*vChart{{Name: "suba", Version: "1.0.0", Values: map[string]any{},
+								Charts: []*vChart{{Name: "gca", Version: "1.0.0", Values: gdef,
+									Charts: []*vChart{{Name: "leaf", Version: "1.0.0", Values: map[string]any{"z": 1.0}}},
+									Deps:   []vDep{{Name: "leaf", Version: "1.0.0", Condition: "leaf.enabled", Tags: []string{"t1"}}}}}}},
+							Deps: []vDep{{Name: "suba", Version: "1.0.0"}}}})
 				}
 			}
 		}
